@@ -105,4 +105,4 @@ def body(case):
 
 
 def tests(tier):
-    return [TestSpec("select", gen_case, body, {"quick": 6000, "thorough": 600000}, tape=1024)]
+    return [TestSpec("select", gen_case, body, {"quick": 6000, "thorough": 600000}, tape=1024, fuzz={"thorough": 40000})]
